@@ -1,7 +1,177 @@
-import Quanto.Spec.C01
+/-
+Property C01 — 8-bit symmetric quantization maps every element to a nearest point of the
+value grid, saturates instead of wrapping, dequantizes to `fl(s·c)` and is idempotent on
+dequantized values (under the stated side conditions).
+-/
+import Proofs.C01.Lemmas
+
 namespace Quanto
 
-/-- placeholder obligation until the float lemma library lands: the grid of qint8 has 256 points -/
-theorem C01_grid_size : (QT.grid .qint8).length = 256 := by simp [QT.grid]
+/-- T1: the stored code is a finite value of the grid. -/
+theorem C01_code_in_grid (F : Fmt) (hF : WorkFmt F) (Q : QT) (x s : Rat) (hs : 0 < s) :
+    ∃ c, symCode F Q (.fin x) (.fin s) = .fin c ∧ Q.InGrid c := by
+  rcases symCode_cases F hF Q x s hs with h | h | h
+  · exact ⟨_, h.2.2, codeOf_inGrid Q _⟩
+  · refine ⟨_, h.2, ?_⟩
+    rw [← codeOf_sat_hi Q Q.qmax le_rfl]; exact codeOf_inGrid Q _
+  · refine ⟨_, h.2, ?_⟩
+    rw [← codeOf_sat_lo Q Q.qmin le_rfl]; exact codeOf_inGrid Q _
+
+/-- T2: saturation at the top of the grid (no wrap-around). -/
+theorem C01_saturates_hi (F : Fmt) (hF : WorkFmt F) (Q : QT) (x s : Rat) (hs : 0 < s)
+    (h : Q.qmax ≤ x / s) : symCode F Q (.fin x) (.fin s) = .fin Q.qmax := by
+  rcases symCode_cases F hF Q x s hs with hc | hc | hc
+  · rw [hc.2.2, codeOf_sat_hi Q _ (le_flR_of_rep F hF (work_rep_qmax F hF Q) h)]
+  · exact hc.2
+  · have := Q.qmax_pos
+    have := QT.qmax_le_work F hF Q
+    linarith [hc.1]
+
+/-- T3: saturation at the bottom of the grid. -/
+theorem C01_saturates_lo (F : Fmt) (hF : WorkFmt F) (Q : QT) (x s : Rat) (hs : 0 < s)
+    (h : x / s ≤ Q.qmin) : symCode F Q (.fin x) (.fin s) = .fin Q.qmin := by
+  rcases symCode_cases F hF Q x s hs with hc | hc | hc
+  · rw [hc.2.2, codeOf_sat_lo Q _ (flR_le_of_rep F hF (work_rep_qmin F hF Q) h)]
+  · have := Q.qmin_neg
+    have := QT.qmax_le_work F hF Q
+    have := Q.qmax_pos
+    linarith [hc.1]
+  · exact hc.2
+
+/-- T4: the dequantized value is, up to the rounding allowance `epsC01`, at least as close to
+`x` as any scaled grid point. -/
+theorem C01_nearest (F : Fmt) (hF : WorkFmt F) (Q : QT) (x s : Rat) (hs : 0 < s) :
+    ∀ c y, symCode F Q (.fin x) (.fin s) = .fin c → symDeq F (.fin c) (.fin s) = .fin y →
+      ∀ v, Q.InGrid v → |y - x| ≤ |s * v - x| + epsC01 F x s c := by
+  intro c y hc hy v hv
+  unfold epsC01
+  rw [rabs_eq, rabs_eq]
+  exact nearest_core F hF Q x s hs c y hc hy v hv
+
+set_option linter.unusedVariables false in
+/-- T5: the dequantized value is finite whenever the exact product is in range. -/
+theorem C01_deq_finite (F : Fmt) (hF : WorkFmt F) (Q : QT) (x s : Rat) (hs : 0 < s) :
+    ∀ c, s * |c| ≤ F.maxFin → ∃ y, symDeq F (.fin c) (.fin s) = .fin y := by
+  intro c h
+  refine ⟨F.flR (s * c), ?_⟩
+  rw [symDeq_eq]
+  apply fl_fin_of_le F hF
+  rwa [abs_mul, abs_of_pos hs]
+
+set_option linter.unusedVariables false in
+/-- T6: the dequantized value is the rounding of the grid point `s·c`. -/
+theorem C01_deq_is_grid_point (F : Fmt) (hF : WorkFmt F) (Q : QT) (x s : Rat) (hs : 0 < s) :
+    ∀ c y, symDeq F (.fin c) (.fin s) = .fin y → |y - s * c| ≤ F.u * (s * |c|) + F.eta := by
+  intro c y h
+  rw [symDeq_eq] at h
+  have := fl_err F hF _ _ h
+  rwa [abs_mul, abs_of_pos hs] at this
+
+/-- T7: re-quantizing a dequantized int8 code with the same scale gives the code back, when the
+product `s·n` is a normal number of the working format (float32 / float16). -/
+theorem C01_idempotent_int8 (F : Fmt) (hF' : F = f32 ∨ F = f16) (s : Rat) (hs : 0 < s) :
+    ∀ n : Int, -128 ≤ n → n ≤ 127 →
+      (pow2 F.emin ≤ s * |(n : Rat)| ∨ n = 0) → s * |(n : Rat)| ≤ F.maxFin →
+      ∀ y, symDeq F (.fin n) (.fin s) = .fin y → symCode F .qint8 (.fin y) (.fin s) = .fin n := by
+  intro n hn1 hn2 hnorm _ y hy
+  have hF : WorkFmt F := by rcases hF' with rfl | rfl <;> simp [WorkFmt]
+  obtain ⟨hu, he⟩ := u_eta_small F hF'
+  exact idem_int8_core F hF hu he s hs n hn1 hn2 hnorm y hy
+
+/-- T8 (strong form): re-quantizing a dequantized float8 code with the same scale gives the code
+back, in every working format (float32, float16 and bfloat16), when the product `s·c` is a
+normal number of the working format. -/
+theorem C01_idempotent_float8_work (F : Fmt) (hF : WorkFmt F) (Q : QT)
+    (hQ : Q = .e4m3 ∨ Q = .e5m2) (s : Rat) (hs : 0 < s) :
+    ∀ c, Q.InGrid c → (pow2 F.emin ≤ s * |c| ∨ c = 0) → s * |c| ≤ F.maxFin →
+      ∀ y, symDeq F (.fin c) (.fin s) = .fin y → symCode F Q (.fin y) (.fin s) = .fin c := by
+  intro c hc hnorm _ y hy
+  obtain ⟨hu, he⟩ := u_eta_work F hF
+  have hQ' : Q.isFloat = true := by rcases hQ with rfl | rfl <;> rfl
+  exact idem_float8_core F hF hu he Q hQ' s hs c hc hnorm y hy
+
+/-- T8: the float8 idempotence statement with the same format hypothesis as T7. -/
+theorem C01_idempotent_float8 (F : Fmt) (hF' : F = f32 ∨ F = f16) (Q : QT)
+    (hQ : Q = .e4m3 ∨ Q = .e5m2) (s : Rat) (hs : 0 < s) :
+    ∀ c, Q.InGrid c → (pow2 F.emin ≤ s * |c| ∨ c = 0) → s * |c| ≤ F.maxFin →
+      ∀ y, symDeq F (.fin c) (.fin s) = .fin y → symCode F Q (.fin y) (.fin s) = .fin c :=
+  C01_idempotent_float8_work F (by rcases hF' with rfl | rfl <;> simp [WorkFmt]) Q hQ s hs
+
+/-- T9: the tensor-level quantizer applies the scalar quantizer at every position of the
+broadcast shape. -/
+theorem C01_tensor (F : Fmt) (Q : QT) (x : T FV) (axis : Option Int) (scale : T FV) (qb : QBytes)
+    (h : symQuantize F Q x axis scale = .ok qb) :
+    qb.size = x.shape ∧ qb.scale = scale ∧
+      ∃ out, bcastShape x.shape scale.shape = some out ∧ qb.data.shape = out ∧
+        ∀ n, n < prod out → qb.data.get n =
+          symCode F Q (x.get (bcastSrc out x.shape n)) (scale.get (bcastSrc out scale.shape n)) := by
+  unfold symQuantize at h
+  split at h
+  · cases h
+  · split at h
+    · cases h
+    · rename_i out hout
+      injection h with h
+      subst h
+      refine ⟨rfl, rfl, out, hout, rfl, ?_⟩
+      intro n hn
+      simp [T.get, T.ofFn, hn]
+
+/-- T10: every element of the executable grid `Q.grid` (used by `specC01`) is a mathematical
+grid value, so `C01_nearest` implies the executable `grid.all …` check. -/
+theorem C01_grid_sound (Q : QT) : ∀ v, v ∈ Q.grid → Q.InGrid v :=
+  fun v hv => grid_sound Q v hv
+
+/-- T12: for qint8 the executable grid is exactly the mathematical one. -/
+theorem C01_grid_complete_int8 : ∀ v, QT.InGrid .qint8 v → v ∈ QT.grid .qint8 :=
+  grid_complete_int8
+
+/-- T11a (defect): a finite input whose dequantized value overflows to `+inf` in float16. -/
+theorem C01_counterexample_deq_overflow :
+    symDeq f16 (symCode f16 .qint8 (.fin 65504) (.fin 1000)) (.fin 1000) = .pinf := by
+  decide +kernel
+
+/-- T11b (defect): with a subnormal scale the dequantized value of the e4m3 code 3/2 is
+re-quantized to a different code (2). -/
+theorem C01_counterexample_idem_subnormal :
+    symDeq f16 (.fin (3 / 2)) (.fin (pow2 (-24))) = .fin (2 * pow2 (-24)) ∧
+    symCode f16 .e4m3 (.fin (2 * pow2 (-24))) (.fin (pow2 (-24))) = .fin 2 := by
+  decide +kernel
+
+/-- why T7 excludes bfloat16: with the bfloat16 scale 213/128 the int8 code 91 dequantizes to 151
+(a normal product) and is re-quantized to 90. -/
+theorem C01_counterexample_idem_int8_bf16 :
+    symDeq bf16 (.fin 91) (.fin (213 / 128)) = .fin 151 ∧
+    symCode bf16 .qint8 (.fin 151) (.fin (213 / 128)) = .fin 90 := by
+  decide +kernel
+
+/-! ### non-vacuity: concrete instances satisfy the hypotheses of T4, T7 and T8 -/
+
+/-- T4 instantiated at float16 / qint8, x = 1/3, s = 1/100 (code 33, dequantized 169/512). -/
+example : |(169 / 512 : Rat) - 1 / 3| ≤
+    |(1 / 100 : Rat) * 33 - 1 / 3| + epsC01 f16 (1 / 3) (1 / 100) 33 :=
+  C01_nearest f16 (by simp [WorkFmt]) .qint8 (1 / 3) (1 / 100) (by norm_num) 33 (169 / 512)
+    (by decide +kernel) (by decide +kernel) 33 ⟨33, by norm_num, by omega, by omega⟩
+
+/-- T4 instantiated at bfloat16 / e5m2, x = -7, s = 1/1000 (code -7168, dequantized -229/32),
+compared with the grid value 57344. -/
+example : |(-229 / 32 : Rat) - (-7)| ≤
+    |(1 / 1000 : Rat) * 57344 - (-7)| + epsC01 bf16 (-7) (1 / 1000) (-7168) :=
+  C01_nearest bf16 (by simp [WorkFmt]) .e5m2 (-7) (1 / 1000) (by norm_num) (-7168) (-229 / 32)
+    (by decide +kernel) (by decide +kernel) 57344
+    (C01_grid_sound .e5m2 57344 (by decide +kernel))
+
+/-- T7 instantiated at float16, s = 1/100, n = 33. -/
+example : symCode f16 .qint8 (.fin (169 / 512)) (.fin (1 / 100)) = .fin ((33 : Int) : Rat) :=
+  C01_idempotent_int8 f16 (Or.inr rfl) (1 / 100) (by norm_num) 33 (by omega) (by omega)
+    (Or.inl (by norm_num [f16, pow2_eq])) (by norm_num [Fmt.maxFin, f16, pow2_eq]) (169 / 512)
+    (by decide +kernel)
+
+/-- T8 instantiated at float16 / e4m3, s = 1/100, c = 32. -/
+example : symCode f16 .e4m3 (.fin (1311 / 4096)) (.fin (1 / 100)) = .fin 32 :=
+  C01_idempotent_float8 f16 (Or.inr rfl) .e4m3 (Or.inl rfl) (1 / 100) (by norm_num) 32
+    (C01_grid_sound .e4m3 32 (by decide +kernel))
+    (Or.inl (by norm_num [f16, pow2_eq])) (by norm_num [Fmt.maxFin, f16, pow2_eq]) (1311 / 4096)
+    (by decide +kernel)
 
 end Quanto
